@@ -530,6 +530,7 @@ func main() {
 		"each tree evaluated (1) by gomacro with OptKeepUntyped, (2) by the exact math/big reference evaluator, (3) by go/types types.Eval; every accepted value is then used in typed contexts "+
 		"`var x T = e` and `T(e)` for T over the 17 basic kinds (3 targets per value, biased to the value's neighbourhood) judged by go/types (accept/reject) and one batched compiled-Go program (values, float bit patterns), "+
 		"and in `var b *big.Int|*big.Rat|*big.Float = e` judged against math/big built from the exact value; corpus/C04/*.json replayed first (untyped, typed and *big.T contexts). "+
+		"typed stream edge (differential only): float/imaginary constants at the edges of float32/float64 (underflow to zero, rounding boundary of the smallest subnormal, -0.0, max, overflow) with both signs, as real / imaginary / both parts, in `var x T = c` and `T(c)` for float32, float64, complex64, complex128 (sign of a zero result compared through the IEEE bit pattern). "+
 		"Shift counts up to 1100 (bound 1074 as go/types); a tree with an intermediate value of >= 4000 bits is judged by go/types instead of exact arithmetic (go/constant rounds to 512 bits there, as the spec allows); the model comparison skips values outside go/constant's exact big.Rat range for the model comparison. "+
 		"A case is non-trivial when it contains >=1 operator and is accepted; distinct by SHA-256 of the source text")
 	newInterp()
@@ -712,6 +713,13 @@ func main() {
 				idx++
 			}
 		}
+	}
+
+	// ---- typed stream "edge" (edge.go): float/imaginary constants at the underflow / overflow edges, both signs
+	for _, e := range edgeTyped() {
+		typed = append(typed, &tcase{Idx: idx, Src: e[0], Ctx: e[1], Type: e[2]})
+		idx++
+		rep.Dist("stream:typed_edge")
 	}
 
 	// ---- typed contexts: go/types decides accept/reject, compiled Go gives the values
